@@ -46,6 +46,10 @@ PIPES = [
     (["compute_tip_position"], {}),
     (PIPE + ["correct_force_slope"],
      {"correct_force_slope": {"region": "baseline", "strategy": "shift"}}),
+    # segment discovery rewrites the segment column
+    (PIPE + ["correct_split_approach_retract"], {}),
+    (["compute_tip_position", "correct_split_approach_retract",
+      "correct_tip_offset", "smooth_height"], {}),
 ]
 NAMES = ["me", "Ünï Cödé", "a b", ""]
 COMMENTS = ["", "good", "näive – dash", "two\nlines", "x" * 200]
@@ -289,7 +293,7 @@ class ContainerEngine:
             nv = rng.choice([1, 2, 2, 3])
             cvs.append({"file": rng.randrange(nfiles),
                         "enum": rng.randrange(4),
-                        "pipe": rng.choice([0, 0, 0, 1, 2, 3, 4]),
+                        "pipe": rng.choice([0, 0, 0, 1, 2, 3, 4, 5, 5, 6]),
                         "variants": rng.sample(range(len(VARIANTS)), nv)})
         ncont = rng.choice([1, 1, 2])
         nops = rng.choice([3, 4, 5, 6] if tier == "quick"
